@@ -33,6 +33,7 @@ func runC07(c *ShardCtx) {
 		"actopt": func() *peg.Expr { return peg.Action(0, peg.Opt(a())) }, "actnull": func() *peg.Expr { return peg.Action(0, peg.Ref("N")) },
 		// a nullable RULE (rule N <- 'z'? is added to the grammar) and a + over a nullable body
 		"nullrule":     func() *peg.Expr { return peg.Ref("N") },
+		"emptylitrule": func() *peg.Expr { return peg.Ref("M") }, // (M <- "z" / "": nullable through an empty LITERAL in a leaf rule)
 		"plusnullable": func() *peg.Expr { return peg.Plus(peg.Opt(a())) },
 		// classes that hold U+FFFD (the rune the runtime shows at the end of input and for invalid
 		// bytes): not nullable, they must not match without consuming anywhere
@@ -40,7 +41,7 @@ func runC07(c *ShardCtx) {
 		"soclass": func() *peg.Expr { return peg.Cls(false, false, `\p{So}`) }, "fffdlit": func() *peg.Expr { return peg.Lit("\uFFFD") },
 		"plusnullrule": func() *peg.Expr { return peg.Plus(peg.Ref("N")) },
 	}
-	prefixOrder := []string{"none", "a", "empty", "opt", "star", "plus", "and", "not", "emptyclass", "notclass", "andcode", "state", "labempty", "choiceEmptyFirst", "choiceEmptyLast", "throw", "nullrule", "plusnullable", "plusnullrule", "actopt", "actnull", "fffdclass", "fffdrange", "soclass", "fffdlit"}
+	prefixOrder := []string{"none", "a", "empty", "opt", "star", "plus", "and", "not", "emptyclass", "notclass", "andcode", "state", "labempty", "choiceEmptyFirst", "choiceEmptyLast", "throw", "nullrule", "plusnullable", "plusnullrule", "emptylitrule", "actopt", "actnull", "fffdclass", "fffdrange", "soclass", "fffdlit"}
 	refItems := map[string]func(r string) *peg.Expr{
 		"R": func(r string) *peg.Expr { return peg.Ref(r) }, "R?": func(r string) *peg.Expr { return peg.Opt(peg.Ref(r)) },
 		"R*": func(r string) *peg.Expr { return peg.Star(peg.Ref(r)) }, "R+": func(r string) *peg.Expr { return peg.Plus(peg.Ref(r)) },
@@ -121,6 +122,15 @@ func runC07(c *ShardCtx) {
 		}
 		if usesN && g.Rule("N") == nil {
 			g.Rules = append(g.Rules, &peg.Rule{Name: "N", Expr: peg.Opt(peg.Lit("z"))})
+		}
+		usesM := false
+		for _, r := range g.Rules {
+			for _, x := range peg.RefsOf(r.Expr) {
+				usesM = usesM || x == "M"
+			}
+		}
+		if usesM && g.Rule("M") == nil {
+			g.Rules = append(g.Rules, &peg.Rule{Name: "M", Expr: peg.Choice(peg.Lit("z"), peg.Lit(""))})
 		}
 		peg.Renumber(g, 1)
 		text := peg.Print(g, nil)
@@ -223,6 +233,20 @@ func runC07(c *ShardCtx) {
 			}
 			c.Report(Violation{Desc: "grammar without left recursion rejected: no cycle in the first-call graph and no rule re-entered on any input up to length 2", Grammar: text}, known)
 			return
+		}
+		// the same verdict with -optimize-grammar (the analysis then runs on the optimized grammar: inlined
+		// copies of leaf rules, merged terminals): a grammar whose FIRST rule re-enters a rule - rules
+		// the first rule does not reach are removed by the optimizer - must still be rejected
+		if len(g.Rules) > 1 && witness != "" && witnessEp == nil && (forceBuild || idx%4 == 1) {
+			ro, err := c.W.Srv.Call(&hook.Req{Mode: "build", Text: []byte(text), OptGrammar: true})
+			if err != nil {
+				panic(&core.HarnessError{Msg: err.Error()})
+			}
+			c.Res.Counters["verdict_with_optimize_grammar"]++
+			if ro.Panic == "" && !ro.Hung && ro.Err == "" && rejected {
+				c.Report(Violation{Desc: "left recursion not detected with -optimize-grammar: rejected without the flag, accepted with it, and the first rule re-enters a rule at " + witness, Grammar: text, Input: string(witnessIn), InputHex: hexOf(witnessIn), Gen: "-optimize-grammar"}, "")
+				return
+			}
 		}
 		// accepted grammars must terminate on the real parser whenever the reference does
 		if !rejected && (forceBuild || idx%16 == 3) {
